@@ -121,3 +121,131 @@ add(Contract(
               "WF(fragments)", "fragments.current_offset >= 0", "hasslot(pkt, self.field_name)"],
     ensures=_int_encode, raises=_int_encode_raises,
     modifies=FRAG_MOD, returns='ref:Fragments'))
+
+# ---------------------------------------------------------------- Data (C06, C04)
+_sized_posts = lambda size: [x % dict(size=size) for x in [
+    # exactly the declared number of bytes, all inside the input
+    "isint(%(size)s) and intval(%(size)s) >= 0",
+    "implies(intval(%(size)s) > 0, offset + intval(%(size)s) <= len(raw))",
+    "isbytes(slot(pkt, self.field_name)) and hasslot(pkt, self.field_name)",
+    "bytesval(slot(pkt, self.field_name)) == raw[offset:offset + intval(%(size)s)]",
+    "len(bytesval(slot(pkt, self.field_name))) == intval(%(size)s)",
+    "result == offset + intval(%(size)s)",
+]]
+_sized_raise = lambda size, extra='False': {'Exception*': [
+    # a short read or a negative size (or a failing size callback) is an error - and nothing else is
+    ("not isint(%(size)s) or intval(%(size)s) < 0 or (intval(%(size)s) > 0 and offset + intval(%(size)s) > len(raw))"
+     " or (%(extra)s)"
+     % dict(size=size, extra=extra))]}
+
+add(Contract(
+    'field:Data._unpack_fixed_size',
+    params={'self': 'ref:Data', 'pkt': 'ref:Packet', 'raw': 'bytes', 'offset': 'int', 'k': 'kw'},
+    requires=["offset >= 0"],
+    ensures=_sized_posts('self.byte_count'), raises=_sized_raise('self.byte_count'),
+    modifies=['slot(pkt, self.field_name)'], returns='int'))
+
+_SZ_F = "old(slot(pkt, asref(self.byte_count, 'Field').field_name))"
+add(Contract(
+    'field:Data._unpack_variable_size_field',
+    params={'self': 'ref:Data', 'pkt': 'ref:Packet', 'raw': 'bytes', 'offset': 'int', 'k': 'kw'},
+    requires=["offset >= 0", "isinst(self.byte_count, 'Field')",
+              "hasslot(pkt, asref(self.byte_count, 'Field').field_name)"],
+    ensures=_sized_posts(_SZ_F), raises=_sized_raise(_SZ_F),
+    modifies=['slot(pkt, self.field_name)'], returns='int'))
+
+_SZ_C = "old(cb(self.byte_count, pkt=pkt, raw=raw, offset=offset, k=k))"
+add(Contract(
+    'field:Data._unpack_variable_size_callable',
+    params={'self': 'ref:Data', 'pkt': 'ref:Packet', 'raw': 'bytes', 'offset': 'int', 'k': 'kw'},
+    requires=["offset >= 0", "iscallable(self.byte_count)"],
+    ensures=_sized_posts(_SZ_C) + ["not old(cb_raises(self.byte_count, pkt=pkt, raw=raw, offset=offset, k=k))"],
+    raises=_sized_raise(_SZ_C, "old(cb_raises(self.byte_count, pkt=pkt, raw=raw, offset=offset, k=k))"),
+    modifies=['slot(pkt, self.field_name)'], returns='int'))
+
+# the search window of a delimited field: [offset, offset+W) cut to the input, or to the end
+define('W_(self)', "self._search_buffer_length")
+define('win_lo(raw, offset)', "min(offset, len(raw))")
+define('win_hi(self, raw, offset)',
+       "ite(bool(W_(self)), min(offset + intval(W_(self)), len(raw)), len(raw))")
+define('win(self, raw, offset)',
+       "ite(bool(W_(self)), raw[offset:offset + intval(W_(self))], raw[offset:])")
+define('MK(self)', "bytesval(self.until_marker)")
+define('DataDelimWF(self)',
+       "(isnone(W_(self)) or (isint(W_(self)) and not isbool(W_(self)) and intval(W_(self)) >= 0))"
+       " and implies(self.include_delimiter, self.consume_delimiter)")
+
+_C = "find(win(self, raw, offset), MK(self))"
+add(Contract(
+    'field:Data._unpack_with_string_marker',
+    params={'self': 'ref:Data', 'pkt': 'ref:Packet', 'raw': 'bytes', 'offset': 'int', 'k': 'kw'},
+    requires=["offset >= 0", "isbytes(self.until_marker)", "len(MK(self)) > 0", "DataDelimWF(self)",
+              # invariant of compiled bytes-marker fields (established by Data.__init__)
+              "self.delimiter_to_be_included == ite(self.include_delimiter, b'', MK(self))"],
+    ensures=[
+        # the delimiter occurs at offset+c, inside the input ...
+        "%(c)s >= 0" % dict(c=_C),
+        "using(match_shift(raw, win_lo(raw, offset), win_hi(self, raw, offset), %(c)s, MK(self)),"
+        "      match(raw, offset + %(c)s, MK(self)))" % dict(c=_C),
+        "offset + %(c)s + len(MK(self)) <= len(raw)" % dict(c=_C),
+        # ... and inside the configured search window ...
+        "implies(bool(W_(self)), %(c)s + len(MK(self)) <= intval(W_(self)))" % dict(c=_C),
+        # ... and it is the first occurrence at or after the cursor that lies within the window
+        "forall(0, %(c)s, lambda c2: using("
+        "   match_shift(raw, win_lo(raw, offset), win_hi(self, raw, offset), c2, MK(self)),"
+        "   not (match(raw, offset + c2, MK(self)) and offset + c2 + len(MK(self)) <= win_hi(self, raw, offset))))"
+        % dict(c=_C),
+        # delimiter included in / excluded from the value as declared, cursor left just past it
+        "isbytes(slot(pkt, self.field_name)) and hasslot(pkt, self.field_name)",
+        "implies(self.include_delimiter, bytesval(slot(pkt, self.field_name)) =="
+        "        raw[offset:offset + %(c)s + len(MK(self))])" % dict(c=_C),
+        "implies(not self.include_delimiter, bytesval(slot(pkt, self.field_name)) == raw[offset:offset + %(c)s])"
+        % dict(c=_C),
+        "implies(self.consume_delimiter, result == offset + %(c)s + len(MK(self)))" % dict(c=_C),
+        "implies(not self.consume_delimiter, result == offset + %(c)s)" % dict(c=_C),
+    ],
+    # a missing delimiter is an error (and nothing else is)
+    raises={'AssertionError': ["%(c)s < 0" % dict(c=_C)]},
+    modifies=['slot(pkt, self.field_name)'], returns='int'))
+
+_RB = "win(self, raw, offset)"
+add(Contract(
+    'field:Data._unpack_with_regexp_marker',
+    params={'self': 'ref:Data', 'pkt': 'ref:Packet', 'raw': 'bytes', 'offset': 'int', 'k': 'kw'},
+    requires=["offset >= 0", "isregex(self.until_marker)", "DataDelimWF(self)"],
+    ensures=[
+        "isbytes(slot(pkt, self.field_name)) and hasslot(pkt, self.field_name)",
+        # end-of-string shortcut: everything up to the end of the input
+        "implies(rx_pattern(self.until_marker) == b'$',"
+        "        bytesval(slot(pkt, self.field_name)) == raw[offset:len(raw)] and result == len(raw))",
+        # otherwise: the (leftmost) match of the pattern inside the search window
+        "implies(rx_pattern(self.until_marker) != b'$', rx_found(self.until_marker, %(b)s))" % dict(b=_RB),
+        "implies(rx_pattern(self.until_marker) != b'$' and self.include_delimiter,"
+        "        bytesval(slot(pkt, self.field_name)) == raw[offset:offset + rx_end(self.until_marker, %(b)s)]"
+        "        and result == offset + rx_end(self.until_marker, %(b)s))" % dict(b=_RB),
+        "implies(rx_pattern(self.until_marker) != b'$' and not self.include_delimiter,"
+        "        bytesval(slot(pkt, self.field_name)) == raw[offset:offset + rx_start(self.until_marker, %(b)s)]"
+        "        and result == offset + ite(self.consume_delimiter, rx_end(self.until_marker, %(b)s),"
+        "                                   rx_start(self.until_marker, %(b)s)))" % dict(b=_RB),
+        # the match lies inside the window and inside the input
+        "implies(rx_pattern(self.until_marker) != b'$', rx_end(self.until_marker, %(b)s) <= len(%(b)s))" % dict(b=_RB),
+        "implies(rx_pattern(self.until_marker) != b'$' and rx_end(self.until_marker, %(b)s) > 0,"
+        "        offset + rx_end(self.until_marker, %(b)s) <= win_hi(self, raw, offset))" % dict(b=_RB),
+    ],
+    raises={'AssertionError': ["rx_pattern(self.until_marker) != b'$' and not rx_found(self.until_marker, %(b)s)"
+                               % dict(b=_RB)]},
+    # NB: the regexp variant also stores the matched delimiter on the (shared) field object - finding F2 of C13
+    modifies=['slot(pkt, self.field_name)', 'self.delimiter_to_be_included'], returns='int'))
+
+add(Contract(
+    'field:Data.pack',
+    params={'self': 'ref:Data', 'pkt': 'ref:Packet', 'fragments': 'ref:Fragments', 'k': 'kw'},
+    requires=["WF(fragments)", "fragments.current_offset >= 0", "hasslot(pkt, self.field_name)"],
+    ensures=[
+        # packing re-emits the value followed by the excluded literal delimiter
+        "isbytes(old(slot(pkt, self.field_name)))",
+        "appended(fragments, bytesval(old(slot(pkt, self.field_name))) + self.delimiter_to_be_included)",
+        "result == fragments",
+    ],
+    raises={'Exception': ["unchanged(fragments)"]},
+    modifies=FRAG_MOD, returns='ref:Fragments'))
